@@ -24,6 +24,13 @@ static bool     g_round_cancelled;       // some guard of the current round canc
 static bool     g_exit_guard_ran[VM_NS], g_entry_guard_ran[VM_NS];
 static unsigned g_guard_calls;
 static bool     g_guards_forbidden;      // replay must not consult guards (C09)
+// C04 substitution: the guard of state g_sub_guard (entry guard if g_sub_is_entry) vetoes round 1 and requests g_sub_dest instead
+static int      g_sub_guard = -1, g_sub_dest = 0; static bool g_sub_is_entry = true, g_sub_done, g_sub_forever;
+static int      g_round_now; static bool g_cancel_round[3]; static unsigned g_sub_guard_calls;
+// C02/C12: answers of select()/rank()/utility(): symbolic, one answer per state and step (memoised), recorded for the oracle
+static bool     g_sel_called[VM_NS], g_rank_called[VM_NS], g_util_called[VM_NS];
+static uint8_t  g_sel_val[VM_NS]; static int8_t g_rank_val[VM_NS]; static float g_util_val[VM_NS];
+static unsigned g_rng_draws; static float g_rng_val;
 // C05 delivery order
 static uint8_t  g_seq_state[4 * VM_NS + 4], g_seq_phase[4 * VM_NS + 4]; static unsigned g_seq_len;
 static int      g_consumer = -1, g_consume_phase = -1;   // which state consumes in which phase (symbolic choice made by the harness)
@@ -38,16 +45,23 @@ struct Ev { int tag; };
 template <int ID>
 struct St : FSM::State {
   using Base = FSM::State;
-  void entryGuard(typename Base::GuardControl& c) {
+  template <typename GC> static void guard_common(GC& c, bool is_entry) {
     VASSERT(C09, !g_guards_forbidden, "replay does not consult guards");
-    ++g_guard_calls; g_entry_guard_ran[ID] = true; g_in_processing = true;
-    if (nd_bool()) { c.cancelPendingTransitions(); g_round_cancelled = true; }
+    ++g_guard_calls; g_in_processing = true;
+    int round = 1;
+    if (g_sub_guard >= 0 && !g_sub_forever && c.pendingTransitions().count() > 0 && c.pendingTransitions()[0].destination == (StateID) g_sub_dest) round = 2;
+    g_round_now = round;
+    bool cancel;
+    if (ID == g_sub_guard && is_entry == g_sub_is_entry && (g_sub_forever || (round == 1 && !g_sub_done))) {
+      g_sub_done = true; ++g_sub_guard_calls; cancel = true; c.cancelPendingTransitions(); c.changeTo((StateID) g_sub_dest);
+    } else if (g_sub_guard >= 0 && round == 1) { cancel = false;          // substitution jobs: in round 1 only the keyed guard vetoes (keeps the request queue concrete, DESIGN L2)
+    } else { cancel = nd_bool(); if (cancel) c.cancelPendingTransitions(); }
+    if (cancel) { g_cancel_round[round] = true; g_round_cancelled = true; }
   }
+  void entryGuard(typename Base::GuardControl& c) { g_entry_guard_ran[ID] = true; guard_common(c, true); }
   void exitGuard(typename Base::GuardControl& c) {
-    VASSERT(C09, !g_guards_forbidden, "replay does not consult guards");
     VASSERT(C03, g_entered[ID], "exitGuard is delivered only to an entered state");
-    ++g_guard_calls; g_exit_guard_ran[ID] = true; g_in_processing = true;
-    if (nd_bool()) { c.cancelPendingTransitions(); g_round_cancelled = true; }
+    g_exit_guard_ran[ID] = true; guard_common(c, false);
   }
   void enter(typename Base::PlanControl&) {
     VASSERT(C03, !g_entered[ID], "enter and exit strictly alternate, beginning with enter");
@@ -60,6 +74,20 @@ struct St : FSM::State {
     for (int c = ID + 1; c < VM_NS; ++c) if (VM_SPEC[c].parent == ID) VASSERT(C03, !g_entered[c], "a state is exited after its sub-states");
     g_entered[ID] = false; ++g_exit_count[ID];
   }
+  Prong select(const typename Base::Control&) {
+    if (!g_sel_called[ID]) { g_sel_called[ID] = true; g_sel_val[ID] = nd_u8(); VASSUME(g_sel_val[ID] < VM_SPEC[ID].width); }   // documented precondition: below the region width
+    return g_sel_val[ID];
+  }
+#ifdef VM_UTILITY
+  typename Base::Rank rank(const typename Base::Control&) {
+    if (!g_rank_called[ID]) { g_rank_called[ID] = true; g_rank_val[ID] = nd_i8(); VASSUME(g_rank_val[ID] >= 0 && g_rank_val[ID] <= 1); }
+    return g_rank_val[ID];
+  }
+  typename Base::Utility utility(const typename Base::Control&) {
+    if (!g_util_called[ID]) { g_util_called[ID] = true; g_util_val[ID] = nd_f32(); VASSUME(g_util_val[ID] >= 0.0f && g_util_val[ID] <= 1000.0f); }   // finite, non-negative
+    return g_util_val[ID];
+  }
+#endif
   void issue(typename Base::FullControl& c) {
     if (ID == g_issuer)  request(c, g_issue_kind,  g_issue_dest);
     if (ID == g_issuer2) request(c, g_issue_kind2, g_issue_dest2);
